@@ -43,6 +43,23 @@ def window_ctor_args(repo, process_q):
     return fi, calls[0], b.bound
 
 
+def _array_kind_test(t) -> bool:
+    """a test made only of questions about the KIND of arrays: type(x) is np.ndarray, isinstance(x, ..), x.ndim == k, x.dtype.kind == 'f', x.shape[i] == y.shape[j], x.flags..."""
+    if isinstance(t, ast.BoolOp):
+        return all(_array_kind_test(v) for v in t.values)
+    if isinstance(t, ast.UnaryOp) and isinstance(t.op, ast.Not):
+        return _array_kind_test(t.operand)
+    if isinstance(t, ast.Call) and call_name(t) == "isinstance":
+        return True
+    KIND = ("type(", ".ndim", ".dtype", ".flags", "isinstance(", ".strides", ".shape", ".itemsize", ".size")
+    if isinstance(t, ast.Compare):
+        txt = src(t)
+        return any(k in txt for k in KIND)
+    if isinstance(t, ast.Attribute):
+        return any(k in src(t) for k in KIND)     # x.dtype.isnative, x.flags.c_contiguous ...
+    return False
+
+
 def ind2save_cases(repo, env, facts, ratio: Poly, etype: str):
     """Evaluate _ind2save for the four (first?, last?) cases; returns {case: (a, b)} in output samples."""
     fi = repo.fn(CLS + "._ind2save")
@@ -79,6 +96,11 @@ def ind2save_cases(repo, env, facts, ratio: Poly, etype: str):
                     break
                 if isinstance(s, ast.Return):
                     break
+                if isinstance(s, ast.If) and _array_kind_test(s.test) and not any(isinstance(n_, ast.Name) and n_.id in (wg, "ratio", "etype") for n_ in ast.walk(s.test)) \
+                        and not any("ind2save" in src(t_) for b_ in s.body + s.orelse for x_ in ast.walk(b_) if isinstance(x_, (ast.Assign, ast.AugAssign))
+                                    for t_ in (x_.targets if isinstance(x_, ast.Assign) else [x_.target])):
+                    # a branch on the KIND of the arrays (type / ndim / dtype tests selecting a fast path) that never touches the kept range: both arms write the same range
+                    continue
                 sx.step(s)
         except Undecided as ex:
             raise AnalysisError(f"_ind2save ({case}, {etype}): {ex}")
